@@ -26,16 +26,29 @@ func (d *DFA) Search(input []byte, cache *Cache) []int {
 
 	state := d.startState
 	pos := 0
+	haveMatch := false
 
 	// Main search loop
 	for pos < len(input) {
+		// Leftmost-first: the byte transitions of a match state are those of higher
+		// priority than its Match (the builder drops the others). The match found here
+		// is the answer unless one of them goes on to match later.
+		if d.isMatchState(state) && !d.isEndOnly(state) {
+			copy(cache.saved, cache.slots)
+			applyMatchSlots(cache.saved, d.getMatchSlots(state), pos)
+			if len(cache.saved) >= 2 {
+				cache.saved[1] = pos
+			}
+			haveMatch = true
+		}
+
 		b := input[pos]
 		class := d.classes.Get(b)
 		trans := d.getTransition(state, class)
 
-		// Check for dead state (no match)
+		// Dead state: no continuation matches
 		if trans.IsDead() {
-			return nil
+			break
 		}
 
 		// Update capture slots BEFORE consuming byte
@@ -47,30 +60,22 @@ func (d *DFA) Search(input []byte, cache *Cache) []int {
 		pos++
 
 		// Transition to next state
-		nextState := trans.NextState()
-
-		// Check for match (leftmost-first: return on first match if match-wins)
-		if trans.IsMatchWins() && d.isMatchState(nextState) {
-			// Apply match slots (capture END positions from match state's epsilon closure)
-			applyMatchSlots(cache.slots, d.getMatchSlots(nextState), pos)
-			// Set end of entire match (group 0)
-			if len(cache.slots) >= 2 {
-				cache.slots[1] = pos
-			}
-			return cache.slots
-		}
-
-		state = nextState
+		state = trans.NextState()
 	}
 
-	// Check final state for match
-	if d.isMatchState(state) {
+	// Input consumed in a match state
+	if pos == len(input) && d.isMatchState(state) {
 		// Apply match slots at end of input (capture END positions)
 		applyMatchSlots(cache.slots, d.getMatchSlots(state), len(input))
 		// Set end of entire match to end of input
 		if len(cache.slots) >= 2 {
 			cache.slots[1] = len(input)
 		}
+		return cache.slots
+	}
+
+	if haveMatch {
+		copy(cache.slots, cache.saved)
 		return cache.slots
 	}
 
